@@ -456,7 +456,7 @@ SUBS = [
 # known-finding predicates: (case, label, msg) -> bool
 def _mpc_all_equal(case, label, msg):
     """components equal (exactly, or up to differences below ~1e-77): the denominator (l0 + l1)^2 of MPC,
-    built from the mean-removed scatter matrix np.cov(re, im), is exactly zero in floating point and MPC = 0/0"""
+    built from the mean-removed scatter matrix np.cov(re, im), is exactly zero (or subnormal) in floating point and MPC = 0/0 or inf"""
     if label not in ("collinear-MPC", "MPC-bounds"):
         return False
     if "v" in case:
@@ -466,7 +466,7 @@ def _mpc_all_equal(case, label, msg):
     with np.errstate(all="ignore"):
         lam = np.linalg.eigvals(np.cov(z.real, z.imag))
         den = (lam[0] + lam[1]) ** 2
-    return bool(den == 0 or not np.isfinite(den))
+    return bool(den == 0 or not np.isfinite(den) or abs(den) < np.finfo(float).tiny)  # zero, overflowed or subnormal (quotient inf / NaN)
 
 
 KNOWN = {"mpc_all_components_equal": _mpc_all_equal}
